@@ -47,7 +47,50 @@ func buildCorpus(t *testing.T) {
 	})
 	_ = flag.Set("rapid.seed", oldSeed)
 	_ = flag.Set("rapid.checks", oldChecks)
-	corpus = progs
+	corpus = append(progs, curatedCorpus()...)
+}
+
+// curatedCorpus: small hand-written templates, one built-in helper or evaluator feature each, with SEVERAL
+// distinct arguments per helper — process-wide state keyed by a helper's arguments (memo tables, bounded caches,
+// interning) is exercised by asking the same helper different things: 225 distinct regular expressions that
+// disagree with each other on the operands, the same environment variable with different defaults, the same method
+// name through T and *T, the same helper over different types.
+func curatedCorpus() []*Program {
+	var texts []string
+	add := func(t ...string) { texts = append(texts, t...) }
+	add(`<%= envOr("VERIF_ENV_MISSING", "one") %>`, `<%= envOr("VERIF_ENV_MISSING", "two") %>|<%= envOr("VERIF_ENV_MISSING", s1) %>`,
+		`<%= env("VERIF_ENV_MISSING") %>`, `<%= env("VERIF_ENV_A") %>|<%= envOr("VERIF_ENV_A", "dflt") %>`, `<%= envOr("VERIF_ENV_MISSING_2", "") %>|<%= env("VERIF_ENV_MISSING_2") %>`)
+	for i := 0; i < 125; i++ {
+		add(fmt.Sprintf(`<%%= "hello world" ~= "^.{%d}[a-%c]" %%>|<%%= s1 ~= "^.{%d}[a-%c]" %%>`, i%5, 'b'+rune(i/5), i%5, 'b'+rune(i/5)))
+	}
+	for lo := 0; lo < 10; lo++ {
+		for hi := 10; hi < 20; hi++ {
+			add(fmt.Sprintf(`<%%= "hello world" ~= "^.{%d,%d}$" %%>|<%%= (s1 + s2 + s1) ~= "^.{%d,%d}$" %%>`, lo, hi, lo, hi))
+		}
+	}
+	add(`<%= pathFor(car) %>`, `<%= pathFor(car2) %>`, `<%= pathFor(page) %>`, `<%= pathFor("a/b") %>|<%= pathFor(car) %>|<%= pathFor(car2) %>`)
+	for _, m := range []string{"dv.Balance()", "dp.Balance()", "dv.Archive()", "dp.Archive()", "dp.Title()", "dv.Title()", "dp.Zed()", "dv.Zed()"} {
+		add("<%= " + m + " %>")
+	}
+	add(`<%= obj.Name %>|<%= obj.Inner.Label %>|<%= objs[1].Tags[0] %>|<%= om.x.N %>|<%= vobj.Name %>`, `<%= obj.Greet("x") %>|<%= obj.Add(1, 2) %>|<%= obj.Self().Self().Name %>`)
+	add(`<%= for (i) in range(1, 2) { %><%= for (j) in range(1, 3) { %><%= i * 10 + j %> <% } %><% } %>`,
+		`<% let r = range(1, 3) %><%= for (i) in r { %><%= i %>,<% } %>|<%= for (i) in r { %><%= i %>,<% } %>|<%= for (i) in until(3) { %><%= i %><% } %>|<%= for (i) in between(0, 4) { %><%= i %><% } %>`,
+		`<%= for (g) in groupBy(2, many) { %>[<%= len(g) %>]<% } %>`)
+	for _, h := range []string{"upcase", "downcase", "capitalize", "pluralize", "singularize", "camelize", "dasherize", "underscore", "ordinalize", "camelize_down_first"} {
+		add(fmt.Sprintf(`<%%= %s("first_word") %%>|<%%= %s(s2) %%>|<%%= %s("3 Mice") %%>`, h, h, h))
+	}
+	add(`<%= truncate("a long sentence of words", {"size": 10}) %>|<%= truncate(s1 + s2 + s1, {"size": 7, "trail": "~"}) %>|<%= truncate("short") %>`,
+		`<%= len(xs) %>|<%= len(s1) %>|<%= len(mi) %>|<%= len("") %>`, `<%= toJSON(xs) %>|<%= json(ss) %>|<%= toJSON({"a": n1, "b": [1, s1]}) %>`,
+		`<%= raw(s1) %>|<%= s1 %>|<%= htmlEscape(s1) %>|<%= jsEscape(s1) %>`, `<%= inspect(one) %>|<%= debug(xs) %>`,
+		`<%= tm %>|<% let TIME_FORMAT = "2006" %><%= tm %>`, `<%= stg %>|<%= htm %>|<%= f64 * 2.0 %>|<%= 7 / 2 %>|<%= "a" + 1 + true %>`,
+		`<% contentFor("cZ") { %>[<%= label %>]<% } %><%= contentOf("cZ", {"label": s2}) %>|<%= contentOf("nosuch") { %>default<% } %>`,
+		`<% let h = {"a": 1, "a": 2, "b": n1} %><%= toJSON(h) %>|<% let a = [1, 2, 3] %><% a[1] = n2 %><%= a %>`,
+		`<% let f = fn(x) { return x * 2 } %><%= f(n1) %>|<%= f(f(1)) %>`)
+	out := make([]*Program, 0, len(texts))
+	for _, t := range texts {
+		out = append(out, &Program{Main: t, Partials: map[string]string{}, Sites: map[int]*Site{}, FeederSites: map[string]*Site{}, Features: map[string]int{}})
+	}
+	return out
 }
 
 // renderAlone: fresh parse, fresh context, cache off, canonical map order.
@@ -103,6 +146,13 @@ func corpusOp(t *rapid.T) {
 	if len(corpusRefs) == 0 {
 		return
 	}
+	for n := 1 + uni(t, "ncorpus", 4); n > 1; n-- {
+		corpusOne(t)
+	}
+	corpusOne(t)
+}
+
+func corpusOne(t *rapid.T) {
 	k := uni(t, "corpusprogram", len(corpus))
 	ref, ok := corpusRefs[k]
 	if !ok {
